@@ -44,14 +44,14 @@ def gen_history(H):
     probs = []
     for i in range(nprob):
         k = H.weighted([("so", 3), ("mo_list", 2), ("mo_bool", 1), ("mo_agg", 1)])
-        probs.append({"kind": k, "minimize": [bool(H.draw(2)) for _ in range(3)], "k": 2 + H.draw(2)})
+        probs.append({"kind": k, "minimize": [bool(H.draw(2)) for _ in range(3)], "k": 2 + H.draw(2), "reuse_buffer": bool(H.draw(3) == 2)})
     n_ind = 1 + H.draw(12)
     calls = []
     for _ in range(1 + H.draw(8)):
         size = 1 + H.draw(min(n_ind, 8))
         members = [H.draw(n_ind) for _ in range(size)]
         calls.append({"problem": H.draw(nprob), "members": members,
-                      "via": H.weighted([("evaluator", 4), ("tracker", 2), ("population", 1), ("step", 2), ("default_tracker", 2)])})
+                      "via": H.weighted([("evaluator", 4), ("tracker", 2), ("population", 1), ("step", 2), ("default_tracker", 2), ("gp", 2)])})
     return {"problems": probs, "n_ind": n_ind, "genotypes": [H.draw(50) for _ in range(n_ind)], "calls": calls}
 
 
@@ -83,8 +83,15 @@ class Exec:
                 return f_of(prog.v)
             return SingleObjectiveProblem(ff, minimize=p["minimize"][0])
 
-        def ffm(prog, pi=pi, k=p["k"]):
+        buf = [0.0] * p["k"]
+
+        def ffm(prog, pi=pi, k=p["k"], reuse=p.get("reuse_buffer")):
             log.append((pi, prog.v, prog))
+            if reuse:
+                # a fitness function that fills and returns the same list object every time
+                for j in range(k):
+                    buf[j] = f_of(prog.v, j)
+                return buf
             return [f_of(prog.v, j) for j in range(k)]
         if p["kind"] == "mo_list":
             return MultiObjectiveProblem(list(p["minimize"][: p["k"]]), ffm)
@@ -135,6 +142,31 @@ def run(ctx):
                 try:
                     if call["via"] == "evaluator":
                         ex.evaluator.evaluate(problem, members)
+                    elif call["via"] == "gp":
+                        # a whole GP run with a caller-supplied tracker and a step that evaluates offspring itself
+                        from geneticengine.algorithms.gp.gp import GeneticProgramming
+                        from geneticengine.evaluation.budget import SearchBudget
+
+                        class Gens(SearchBudget):
+                            def __init__(self):
+                                self.n = 0
+
+                            def is_done(self, tracker):
+                                self.n += 1
+                                return self.n > 3
+
+                        T = SingleObjectiveProgressTracker if isinstance(problem, SingleObjectiveProblem) else MultiObjectiveProgressTracker
+                        tr = T(problem, ex.evaluator)
+                        c_before = tr.get_number_evaluations()
+                        desc = ["sequence", [["tournament", 2, True], ["mutation", 1.0], ["evaluate"]]] if ci % 2 else step_descs[ci]
+                        GeneticProgramming(problem=problem, budget=Gens(), representation=ex.rep, random=rnd, tracker=tr,
+                                           population_size=max(2, len(members)), step=build_step(desc)).search()
+                        if tr.get_number_evaluations() - c_before != len(ex.log) - n0:
+                            ctx.violate(f"C13/counter/{mode}/gp-run/{'under' if tr.get_number_evaluations() - c_before < len(ex.log) - n0 else 'over'}",
+                                        f"{mode}: a GP run with a caller-supplied tracker reports {tr.get_number_evaluations() - c_before} evaluations, "
+                                        f"the fitness function was invoked {len(ex.log) - n0} times (step {desc})")
+                            return
+                        continue
                     elif call["via"] == "default_tracker":
                         if mode == "sequential":
                             # a tracker built WITHOUT an evaluator (the library default): it counts its own evaluations only
